@@ -2,7 +2,7 @@ SPEC = dict(
     id="C23",
     bin="c23",
     cases_quick=1600,
-    cases_thorough=40000,
+    cases_thorough=20000,
     level="proof",
     technique="Coq state-machine model of the action lifecycle (create / execute / close / cancel_order_if_no_position over arbitrary histories) with invariants proved by induction + differential correspondence with the real ActionState / ActionHeader transitions, the real Close::preprocess of CloseDeposit and CloseGlvShift (hand-built Anchor account structs, real Store role table), the real execution_lamports and PayExecutionFeeOperation + lifecycle oracle on the driver's outputs",
     text="Terminal states are absorbing, completion/cancellation happens exactly once, a pending action can be closed only by its owner (GLV shift: also its funder) with every escrowed token and all lamports returned, a non-owner needs the keeper role and a terminal action, and a failed execution cancels the action leaving escrow and market untouched; proved for all histories of the model.",
